@@ -19,6 +19,11 @@ for p in "$@"; do
   rc=$?
   n=$(echo "$out" | grep -c '^VIOLATION')
   echo "$name $p rc=$rc violations=$n secs=$(( $(date +%s) - t0 )) :: $(echo "$out" | grep -m1 'test=' | cut -c1-220)"
+  if [ -n "${KEEP:-}" ]; then
+    # keep the smallest replay as a corpus candidate
+    f=$(ls -S /root/scratch/replays_$name/$p-*.json 2>/dev/null | tail -1)
+    [ -n "$f" ] && mkdir -p "$KEEP" && cp "$f" "$KEEP/$p-$name.json"
+  fi
 done
 git -C /repo worktree remove --force "$wt"
 rm -rf /root/scratch/replays_$name /verif/.gen-root_scratch_sens_$name /verif/.bin/*root_scratch_sens_$name*
